@@ -121,9 +121,10 @@ def register(reg):
         raises={},
     )
 
-    DTr = reg.model("DTraw", fields={"tzinfo": "Optional[opaque:tz]"})
+    # retagged (ghost): the value is the result of replace(tzinfo=...), i.e. its wall-clock fields were re-interpreted
+    DTr = reg.model("DTraw", fields={"tzinfo": "Optional[opaque:tz]", "retagged": "bool"})
     reg.contract("model:DTraw.replace", prop=P, trusted=True, param_names=["self", "tzinfo"], returns=DTr,
-                 ensures=["result.tzinfo is not None"])
+                 ensures=["result.tzinfo is not None", "result.retagged"])
 
     def _parsedate(interp):
         def impl(it, a, k, n):
@@ -136,13 +137,19 @@ def register(reg):
                 it.raise_("ValueError", node=n)
             if c == 3:
                 it.raise_("OverflowError", node=n)
-            return it.fresh(("obj", DTr), "parsed_dt")
+            dt = it.fresh(("obj", DTr), "parsed_dt")
+            it.ctx.assume(z3.Not(dt.fields["retagged"].z), "parsedate_to_datetime:fresh-value")
+            return dt
         return VBuiltin("email.utils.parsedate_to_datetime", impl)
     reg.overrides["std:email.utils.parsedate_to_datetime"] = _parsedate
     reg.overrides["std:datetime.timezone"] = lambda interp: VObj("timezone_cls", {"utc": interp.fresh("opaque:tz", "utc")})
     reg.contract(
-        "werkzeug/http.py:parse_date#verify", prop="C07", params={"value": "Optional[str]"},
-        ensures=["implies(value is None, result is None)", "result is None or result.tzinfo is not None"],
+        "werkzeug/http.py:parse_date#verify", prop="C07,C11", params={"value": "Optional[str]"},
+        ghost_after={"dt = email.utils.parsedate_to_datetime(value)": ["ghost_aware = dt.tzinfo is not None"]},
+        ensures=["implies(value is None, result is None)", "result is None or result.tzinfo is not None",
+                 # C11: a date that carries its own zone offset keeps it (only a naive one is read as UTC): the instant
+                 # compared with Last-Modified is the instant the client sent
+                 "implies(result is not None and ghost_aware, not result.retagged)"],
         raises={},   # TypeError, ValueError and OverflowError of the stdlib parser are all caught
     )
 
